@@ -713,8 +713,11 @@ def inject_fault(sb, kind, rng, arg=None):
     if kind == "empty":
         open(f, "wb").close()
         return "zero-length"
+    sb.prefault_archive_len = len(orig)
     if kind == "truncate":
         k = arg if arg is not None else rng.range(1, max(1, len(orig) - 1))
+        if k >= len(orig):
+            return None  # not a truncation of THIS archive
         open(f, "wb").write(orig[:k])
         return "truncated@%d/%d" % (k, len(orig))
     if kind == "garbage":
@@ -883,8 +886,7 @@ def c07(tier):
         rng = SplitMix.derive(seed(), "c07sweep", t)
         # replicate the setup to learn the archive length (the fault itself is a no-op truncate at len)
         nt, v, d = c07_case(sb, rng, "truncate", 10 ** 9)
-        f = sb.archive_file()
-        ln = len(open(f, "rb").read()) if f else 0
+        ln = getattr(sb, "prefault_archive_len", 0)  # length of the archive the fault will be applied to
         sb.destroy()
         ln = min(ln, 4095)
         r.count("truncation_sweep_archive_bytes", ln)
